@@ -24,6 +24,7 @@ Fixpoint prefixb (a b : list bytes) : bool :=
   end.
 
 Definition lower_s (s : bytes) : bytes := map lower s.
+Definition upper_s (s : bytes) : bytes := map (fun c => if (97 <=? c) && (c <=? 122) then c - 32 else c) s.
 
 Section Match.
   Variable M : mconsts.
@@ -124,6 +125,8 @@ Section Match.
         end
     end.
 
+  Definition is_err (r : sres) : bool := match r with SplitErr => true | SplitOk _ _ _ _ _ => false end.
+
   (* ------------------------------------------------------------ declarative reading (what the statement says) *)
   Definition scope_matchesb (mb : option bytes) (my other : bytes) : bool :=
     match match_scope mb my other with Ret b => b | Raise => false end.
@@ -143,5 +146,17 @@ End Match.
 Definition outb_to_N (o : outcome bool) : N := match o with Ret false => 0 | Ret true => 1 | Raise => 2 end.
 Definition run_match (M : mconsts) (fixed : bool) (badl : list bytes) (mb : option bytes) (a b : bytes) : N :=
   outb_to_N (match_scope M fixed (split_tbl badl) mb a b).
+
+(* the filter functions on one case: per service the verdict of _is_scope_in_list for every requested scope and of
+   matches_filter, then the endpoint references filter_services keeps (None = ValueError) *)
+Definition run_filter (M : mconsts) (fixed : bool) (badl : list bytes) (svs : list service)
+  (types : option (list qname)) (scopes : option scopes_filter) : list (list N * N) * option (list bytes) :=
+  let split := split_tbl badl in
+  (map (fun sv => (match scopes with
+                   | None => []
+                   | Some (mb, uris) => map (fun u => outb_to_N (scope_in_list M fixed split mb u (s_scopes sv))) uris
+                   end,
+                   outb_to_N (matches_filter M fixed split sv types scopes))) svs,
+   match filter_services M fixed split svs types scopes with Raise => None | Ret l => Some (map s_epr l) end).
 
 Definition qname_eqb (a b : qname) : bool := bytes_eqb (fst a) (fst b) && bytes_eqb (snd a) (snd b).
